@@ -30,8 +30,14 @@ Definition objs_step (s : objs) (o : mop) : objs :=
           if negb parent_ok || (k =? 0) then s
           else mkObjs (os_total s) (os_quotas s ++ [(k, mkObj par isPar lnd mx mn (eff_weight mx w))]) (os_pods s) (os_hasTotal s)
       | Some ob =>
+          (* labels count only with an unchanged parent; is-parent only flips without children and pods *)
+          let same_par := par =? o_parent ob in
+          let quiet := match obj_children k s with [] => true | _ => false end
+                       && negb (existsb (fun p => fst (fst p) =? k) (os_pods s)) in
+          let isPar' := if same_par && quiet then isPar else o_isParent ob in
+          let lnd' := if same_par then lnd else o_lend ob in
           mkObjs (os_total s)
-                 (aset k (mkObj (o_parent ob) (o_isParent ob) (o_lend ob) mx mn (eff_weight mx w)) (os_quotas s))
+                 (aset k (mkObj (o_parent ob) isPar' lnd' mx mn (eff_weight mx w)) (os_quotas s))
                  (os_pods s) (os_hasTotal s)
       end
   | MDelete k =>
